@@ -24,8 +24,13 @@ KNOWN = {
         ("C12-P-assemble-row-index-overrun", re.compile(r"^assemble\.exit\[continuation_only_page\]\.returns_index_of_last_row_started")),
     ],
 }
+# what the kernel's safety obligations rest on: the arithmetic part of the loop invariant (on entry, kept by every iteration), the loop
+# bounds, and the obligations that carry the precondition `prev_i == rows started so far` from one page to the next
 CHAIN = re.compile(r"^assemble\.exit\[.*\]\.returns_index_of_last_row_started|^read_col\.assemble\.prev_i_is_rows_started_so_far"
-                   r"|^read_col\.row_index_handed_to_next_page|^read_col\.assemble\.output_is_the_row_group_array")
+                   r"|^read_col\.row_index_handed_to_next_page|^read_col\.assemble\.output_is_the_row_group_array|^read_col\.row_index_starts_at_0"
+                   r"|^assemble\.invariant_on_entry|^assemble\.step\[.*\]\.(cursors|continued_row_is_a_list)|^assemble\.step\.loop_counter_not_modified"
+                   r"|^assemble\.loop_runs_over_all_levels|^assemble\.step\.hypotheses_satisfiable|^assemble\.precondition_satisfiable"
+                   r"|^assemble\.step\.no_abrupt_exit|^assemble\.step\[.*\]\.reachable")
 
 
 def _fn_of(label):
